@@ -23,7 +23,7 @@ THOROUGH = [
     ("q3", QUICK[0][1], "all"),
     ("q2", QUICK[1][1], "all"),
     ("d2", QUICK[2][1], "all"),
-    ("tl", "<=2 nodes, leaf kinds in/in/init and in/both, two-output node, None inputs, every cut", "all"),
+    ("tl", "<=2 nodes, leaf kinds in/in/init and in/both, one two-output node, Graph and Function kinds, every cut", "rotate"),
     ("t3", "3 nodes, one two-output node, <=1 nested body, cuts with <=2 outputs", "rotate"),
     ("td", "4 nodes, 3 graphs, depth <=2, cuts with <=2 outputs", "rotate"),
     ("t4", "4 nodes, <=1 nested body, single outputs, cuts with one output (NeedUnion lemma covers unions)", "rotate"),
@@ -40,7 +40,7 @@ def run(ctx):
 
     def one(item):
         tag = item[0]
-        return tag, ctx.tlc(TLA, _cfg(tag), tag=tag, timeout=3000, workers=NCPU if tag in big else 4, heap="12g" if tag in ("t3", "t4") else "6g")
+        return tag, ctx.tlc(TLA, _cfg(tag), tag=tag, timeout=3000, workers=NCPU if tag in big else 4, heap="6g" if tag in ("t3", "t4", "td", "tl") else "3g")
 
     # design-level check + enumeration.  Small runs in parallel, the large thorough ones one after the other.
     results = {}
@@ -58,7 +58,7 @@ def run(ctx):
                                  f"errors={res.errors[:2]}\n{res.tail(25)}")
 
     # the strong (free-variable) reading of DenEq is NOT a theorem of the transcribed cloner: show it
-    free = ctx.tlc(TLA, _cfg("free"), tag="free", timeout=600, workers=2, count=False)
+    free = ctx.tlc(TLA, _cfg("free"), tag="free", timeout=600, workers=2, count=False, heap="1g")
     if "InvAlgDenEqFree" in free.violated:
         ctx.note("design level: InvAlgDenEqFree (boundary inputs as free variables) is violated by a one-node instance with "
                  "two outputs - a boundary input produced by a needed node is shadowed by the re-computed value; the "
@@ -68,7 +68,7 @@ def run(ctx):
     ctx.extra["strong_reading_counterexample_found"] = "InvAlgDenEqFree" in free.violated
 
     # action coverage (anti-vacuity), on the small depth-2 configuration
-    cov = ctx.tlc(TLA, _cfg("d2"), tag="cov", timeout=900, workers=4, coverage=True, count=False)
+    cov = ctx.tlc(TLA, _cfg("d2"), tag="cov", timeout=900, workers=4, coverage=True, count=False, heap="2g")
     acts = {k: v for k, v in cov.coverage.items() if k.split("!")[-1] in ("Init", "Choose", "Extract")}
     ctx.extra["action_coverage"] = acts
     for a in ("Choose", "Extract"):
@@ -205,7 +205,8 @@ def replay(ctx, detail) -> bool:
         return status == "differs"
     if kind == "source":
         for ins, outs in detail.get("cuts", []):
-            X.run_cut(src, ins, outs, "graph", "obj")
+            for target, by in X.VARIANTS:
+                X.run_cut(src, ins, outs, target, by)
         return not src.unchanged()
     res, exc = X.run_cut(src, detail["ins"], detail["outs"], detail["target"], detail["by"])
     vio, div = X.judge(src, detail["ins"], detail["outs"], detail["expected"], detail["den"], detail["target"], res, exc)
